@@ -35,24 +35,24 @@ func init() { vh.Register("C10", Run) }
 const model = "c10 fixed"
 
 type env struct {
-	r         *vh.Run
-	rng       *vh.RNG
-	hn, rn    *rhpc.Node
-	h         *rhpc.Host
-	cs        consensus.State
-	prices    proto4.HostPrices
-	renterKey types.PrivateKey
-	otherKey  types.PrivateKey
-	fs        *rhpc.FundAndSign
-	contract  rhp4.ContractRevision // the renter's view
-	roots     []types.Hash256       // ground truth: the contract's sector roots
-	acctKey   types.PrivateKey
-	acct      proto4.Account
-	token     proto4.AccountToken
-	sectors   map[types.Hash256]*[proto4.SectorSize]byte
-	order     []types.Hash256
-	rootIDs   map[types.Hash256]int
-	setupErr  error
+	r          *vh.Run
+	rng        *vh.RNG
+	hn, rn     *rhpc.Node
+	h          *rhpc.Host
+	cs         consensus.State
+	prices     proto4.HostPrices
+	renterKey  types.PrivateKey
+	otherKey   types.PrivateKey
+	fs         *rhpc.FundAndSign
+	contract   rhp4.ContractRevision // the renter's view
+	roots      []types.Hash256       // ground truth: the contract's sector roots
+	acctKey    types.PrivateKey
+	acct       proto4.Account
+	token      proto4.AccountToken
+	sectors    map[types.Hash256]*[proto4.SectorSize]byte
+	order      []types.Hash256
+	rootIDs    map[types.Hash256]int
+	setupErr   error
 	nScenarios int
 }
 
@@ -192,7 +192,7 @@ type scenario struct {
 	impl func(o outcome) string
 	// oracle checks a success against ground truth.
 	oracle func(c *vh.Case, o outcome, sent []rhpc.Msg)
-	muts  []mutation
+	muts   []mutation
 	// mustSucceed: the parameters are valid, so the exchange with the honest real server must succeed
 	mustSucceed bool
 	liveFailed  bool
